@@ -119,6 +119,10 @@ func checkC11(c *Check) {
 		rtCursor(a, v)
 		rtLineCol(a, v)
 		rtTranslateDomain(a, v)
+		if rtEvalHere(v) {
+			rtLineColSemantics(a, v, 5)
+			rtErrorSemantics(a, v, 3)
+		}
 		rtRune(a, v)
 	})
 }
@@ -131,5 +135,12 @@ func checkC05(c *Check) {
 		rtRune(a, v)
 		rtRoute(a, v)
 		rtAdopt(a, v)
+		if rtEvalHere(v) {
+			budget := 5
+			if c.Tier == "thorough" {
+				budget = 6
+			}
+			rtASTSemantics(a, v, budget)
+		}
 	})
 }
